@@ -212,6 +212,14 @@ class Faults(Suite):
                 # what an earlier, killed attempt may have left behind
                 plant_leftovers(t, kind, case.get('leftover', 'none'))
                 sys.addaudithook(hook)
+                # a process can also die right AFTER a rename returned (before a buffer is flushed, a handle closed):
+                # the state of the directory at that instant is a crash state too
+                for fname in ('replace', 'rename'):
+                    def wrapped(*a, _orig=getattr(os, fname), _tag=f'after:os.{fname}', **k):
+                        r = _orig(*a, **k)
+                        snap(_tag, [str(x) for x in a if isinstance(x, (str, bytes, os.PathLike))])
+                        return r
+                    setattr(os, fname, wrapped)
                 try:
                     v = t.value
                     res = dict(value=describe_result(kind, v))
